@@ -209,7 +209,10 @@ chk("C02",
     "against freshly generated headers (with the standard its Makefile uses) and must pass. std::function callbacks run the "
     "same scripts as in C01 (a DropLog captured by the callable reports the destruction of the heap copy the binding owns); "
     "a sample of the calls is repeated with every type moved into nested / shared-prefix / disjoint C++ namespaces and some "
-    "types renamed (the driver reaches them through aliases).",
+    "types renamed (the driver reaches them through aliases). Operators leg: the operators the C++ backend derives from "
+    "special-method markers (six relational operators from one `comparison` method, + - * / and compound assignments, operator[] "
+    "for `indexer`, range-for over an `iterable`) must agree with the marked Rust methods on a 7x7 grid incl. i32 extremes; the "
+    "expected truth tables come from spec/special/Special.tla (RelHolds, ArithOp; TLC checks RelLaws).",
     "x86-64, g++ 12. result<const T&, Utf8Error> combinations are skipped by the driver generator.",
     "TLA+ spec + TLC; spec->impl replay (compiled and executed, two C++ standards) and impl->spec trace validation",
     "DESIGN.md §5 C02")
